@@ -4,6 +4,8 @@ deserialize(serialize(v)) == v for all v is a runtime property and is not decide
 implementations of the XTypes serialization rules (xtypes/serializer.rs and xtypes/deserializer.rs) agree on the wire layout —
 each rule below is a necessary condition of the round trip and is checked on the resolved MIR of both sides:
 
+R09o  BYTE ORDER: each method of the BigEndian / LittleEndian strategy impls (EndiannessRead, EndiannessWrite) converts with the
+      from_/to_ function of its own byte order on every width (sibling agreement over 36 methods)
 R09a  ALIGN: per encoding version the serializer and the deserializer clamp alignment with the same constant (8 for XCDR1, 4 for XCDR2)
 R09b  DHEADER: only XCDR2-specific code writes or skips a DHEADER, and for each construct (appendable, mutable struct / union,
       non-primitive sequence / array) the XCDR2 serializer writes one exactly when the XCDR2 deserializer consumes one
@@ -372,8 +374,34 @@ def check_lc5_choice(fx, rep, rule):
     rep.floor(rule, n, 1, "functions choosing EMHEADER length code 5")
 
 
+def byte_order_impls(fx, rep):
+    """R09o: the byte-order strategy types agree with their names on every width: each method of
+    `impl EndiannessRead/EndiannessWrite for BigEndian` converts with from_be_bytes / to_be_bytes only, each method of the
+    LittleEndian impls with from_le_bytes / to_le_bytes only (a single width converted the other way round-trips in one byte
+    order and not in the other)."""
+    n = 0
+    for b in fx.bodies.values():
+        if b.kind != "AssocFn" or not b.impl_trait or not b.impl_self:
+            continue
+        tr = b.impl_trait.split("::")[-1]
+        who = b.impl_self.split("::")[-1]
+        if tr not in ("EndiannessRead", "EndiannessWrite") or who not in ("BigEndian", "LittleEndian"):
+            continue
+        cs = [c.split("::")[-1] for c in (b.sum_calls or ())]
+        conv = sorted({c for c in cs if c in ("from_be_bytes", "from_le_bytes", "to_be_bytes", "to_le_bytes", "from_ne_bytes", "to_ne_bytes", "swap_bytes", "to_be", "to_le", "from_be", "from_le")})
+        if not conv:
+            continue
+        n += 1
+        want = ("from_" if tr == "EndiannessRead" else "to_") + ("be" if who == "BigEndian" else "le") + "_bytes"
+        rep.add("R09o", b.sname, "%s::%s converts with %s only" % (who, b.item_name, want), conv == [want],
+                "uses %s: values of this width are byte-swapped in one representation" % conv, b.loc())
+    return n
+
+
 def run(ctx, rep):
     fx = ctx.facts
+    no = byte_order_impls(fx, rep)
+    rep.floor("R09o", no, 36, "byte-order conversions in the BigEndian / LittleEndian strategy impls")
     # R09a
     for ver, want in ((1, 8), (2, 4)):
         s = impl_fns(fx, SER, ver, "align")
